@@ -683,6 +683,9 @@ func (lazy *SexpLazyArg) Force(env *Zlisp) (Sexp, error) {
 	res, err := env.Run()
 	lazy.forcing = false
 	lazy.Forced = true
+	if err == nil {
+		err = env.checkDataStackFloor(callState, lazy.Expr)
+	}
 	if err != nil {
 		env.restoreControlState(callState)
 		lazy.Value = SexpNull
